@@ -43,9 +43,14 @@ def main():
     if os.path.exists(demo):
         shutil.copy(demo, os.path.join(out, "demo.py"))
         r1 = sh(env)
-        sh("git -C %s stash -q -- behave/" % wt)
+        # NOT git stash: the stash is shared by all worktrees of one repository (parallel evaluations collide)
+        pfile = os.path.join(out, "patch.diff")
+        ra = sh("git -C %s apply -R %s" % (wt, pfile))
         r0 = sh(env)
-        sh("git -C %s stash pop -q" % wt)
+        rb = sh("git -C %s apply %s" % (wt, pfile))
+        if ra.returncode or rb.returncode:
+            print("patch revert/re-apply failed:", ra.stdout, rb.stdout)
+            return 2
         meta["demo_with_change_exit"] = r1.returncode
         meta["demo_without_change_exit"] = r0.returncode
         meta["demo_output_with_change"] = r1.stdout[-1500:]
